@@ -239,24 +239,27 @@ def linear_extensions(r):
 def run_expand(i, r, cnt, out):
     from votekit.utils import expand_tied_ballot
 
-    w = F(5, 3)
-    b = vkit.mk_ballot(r, w)
-    cnt["executions"] += 1
-    try:
-        res = expand_tied_ballot(b)
-    except Exception as e:
-        out["viols"].append(_viol("exception", "expand_tied_ballot", i, f"{type(e).__name__}: {e}"))
-        return
     exp = list(linear_extensions(r))
     denom = 1
     for p in r:
         denom *= math.factorial(len(p))
-    got = [(vkit.canon_ranking(x.ranking), x.weight) for x in res]
-    if sorted(g[0] for g in got) != sorted(exp):
-        out["viols"].append(_viol("extensions", "expand_tied_ballot", i,
-                                  f"returned rankings {sorted(g[0] for g in got)} are not exactly the linear orders {sorted(exp)}, each once"))
-    elif any(g[1] != w / denom for g in got) or sum(g[1] for g in got) != w:
-        out["viols"].append(_viol("weights", "expand_tied_ballot", i, f"weights {[str(g[1]) for g in got]} are not {w}/{denom} each"))
+    # weights: a small rational, one whose equal shares need a denominator above 10**6, one beyond double precision
+    for w in (F(5, 3), F(2, 400009), F(2**53 + 1)):
+        b = vkit.mk_ballot(r, w)
+        cnt["executions"] += 1
+        try:
+            res = expand_tied_ballot(b)
+        except Exception as e:
+            out["viols"].append(_viol("exception", "expand_tied_ballot", i, f"{type(e).__name__}: {e}"))
+            return
+        got = [(vkit.canon_ranking(x.ranking), x.weight) for x in res]
+        if sorted(g[0] for g in got) != sorted(exp):
+            out["viols"].append(_viol("extensions", "expand_tied_ballot", i,
+                                      f"returned rankings {sorted(g[0] for g in got)} are not exactly the linear orders {sorted(exp)}, each once"))
+            return
+        if any(g[1] != w / denom for g in got) or sum(g[1] for g in got) != w:
+            out["viols"].append(_viol("weights", "expand_tied_ballot", i, f"weight {w}: shares {[str(g[1]) for g in got]} are not {w}/{denom} each"))
+            return
     if denom > 1:
         cnt["nontrivial"] += 1
 
